@@ -113,7 +113,12 @@ def run(sid, tier="quick", only=None, jobs=8):
                         pass
     finally:
         sh(["git", "-C", "/repo", "checkout", "--", "."])
-    (d / f"results_{tier}.json").write_text(json.dumps(results, indent=1))
+    out = d / f"results_{tier}.json"
+    if only and out.exists():
+        merged = json.loads(out.read_text())
+        merged.update(results)
+        results = merged
+    out.write_text(json.dumps(dict(sorted(results.items())), indent=1))
     caught = [p for p, r in results.items() if r["violation"]]
     print(sid, "caught by", caught)
     return results
